@@ -18,11 +18,11 @@ else
 fi
 pkgs=$(echo $pkgs | tr ' ' '\n' | sort -u | tr '\n' ' ')
 cd $wt
-demo_unchanged=$(KCACHE_TEST_ASYNC_DURATION=${ASYNC:-} go test -vet=off -count=1 $pkgs -run 'Seed|seed|SEED' 2>&1 | grep -E "^(--- FAIL|FAIL|ok|panic)" | head -4 | tr '\n' ' ')
+demo_unchanged=$(env ${ASYNC:+KCACHE_TEST_ASYNC_DURATION=$ASYNC} go test -vet=off -count=1 $pkgs -run 'Seed|seed|SEED' 2>&1 | grep -E "^(--- FAIL|FAIL|ok|panic)" | head -4 | tr '\n' ' ')
 git apply $sd/patch.diff || { echo "$name PATCH-DOES-NOT-APPLY"; cd /; git -C /repo worktree remove --force $wt; exit 2; }
-demo_changed=$(KCACHE_TEST_ASYNC_DURATION=${ASYNC:-} go test -vet=off -count=1 $pkgs -run 'Seed|seed|SEED' 2>&1 | grep -E "^(--- FAIL|FAIL|ok|panic)" | head -4 | tr '\n' ' ')
+demo_changed=$(env ${ASYNC:+KCACHE_TEST_ASYNC_DURATION=$ASYNC} go test -vet=off -count=1 $pkgs -run 'Seed|seed|SEED' 2>&1 | grep -E "^(--- FAIL|FAIL|ok|panic)" | head -4 | tr '\n' ' ')
 rm -f $placed
-suite=$(KCACHE_TEST_ASYNC_DURATION=${ASYNC:-} go test -vet=off -count=1 ./... 2>&1 | grep -E "^(FAIL|---|panic)" | head -5 | tr '\n' ' ')
+suite=$(env ${ASYNC:+KCACHE_TEST_ASYNC_DURATION=$ASYNC} go test -vet=off -count=1 ./... 2>&1 | grep -E "^(FAIL|---|panic)" | head -5 | tr '\n' ' ')
 go1.26.8 build -tags verif ./... >/dev/null 2>&1 && tagbuild=ok || tagbuild=FAILS
 echo "$name | unchanged: $demo_unchanged | with change: $demo_changed | suite failures: [${suite}] | tag build: $tagbuild"
 cd /; git -C /repo worktree remove --force $wt
